@@ -46,6 +46,9 @@ def fold(e, env=None, depth=0):
         if n.endswith(("::bits", "::into_raw", "::value", "::raw", "::into_u32", "::into_u64", "::into_usize", "::into_i32")):
             return fold(e[2][0], env, depth + 1) if e[2] else None
         return None
+    if k == "agg" and len(e[3]) == 1 and e[1] not in ("array", "tuple"):
+        # newtype wrapper around a scalar
+        return fold(e[3][0], env, depth + 1)
     if k == "un":
         a = fold(e[2], env, depth + 1)
         if a is None:
